@@ -54,6 +54,7 @@ def n_cases(tier):
 def make_case(i, rng, tier):
     depth = rng.choice([1, 2, 2, 3]) if tier == "quick" else rng.choice([1, 2, 2, 3, 3, 4])
     TS.ENABLE_CONTAINS = True
+    TS.ENABLE_REGEX_BEFORE_DECIMAL_PLACES = True
     spec = TS.gen_spec(rng, depth, allow_lax=rng.random() < 0.15, abstract=rng.random() < 0.2,
                        dc=lambda r, d: TS.gen_dc(r, max(0, min(d, 1))))
     waive = rng.random() < 0.06
